@@ -1779,6 +1779,11 @@ class Interp:
             return None
         if fname == "dict" and not args:
             return [(cfg, DictV([(Const(k), v) for k, v in kwargs.items()]))]
+        if fname == "dict" and len(args) == 1 and isinstance(args[0], DictV):
+            d = DictV(args[0].items)  # a fresh dictionary (no alias)
+            for k, v in kwargs.items():
+                d = d.set(Const(k), v)
+            return [(cfg, d)]
         if fname == "range" and all(isinstance(a, Const) for a in args) and args:
             try:
                 r = range(*[a.v for a in args])
